@@ -6,6 +6,9 @@ CHECKS = {
  "C05": ("other", "SSA dataflow: who-may-write on the cursor field + difference-constraint (DBM) proof of index bounds from dominating branch conditions",
          "Decides the structural invariants that make every schedule of result-sequence calls safe and ordered (per-matcher cursor, atomic monotone advance, every index proven in range, advancing path serves pre-increment position, non-advancing paths serve the last element, Return/AndReturn feed the right list). It does not explore schedules; it shows the code shape that is necessary for the property under any schedule.",
          "Trusted: go/ssa construction, dominator-based guard extraction, integer conversions int<->int32 treated as value preserving; assumes matchers are consulted only after one result was added (the registration protocol checked by R4)."),
+ "C08": ("other", "SSA typestate rule: first-write-wins capture of the restore slot (guard analysis), provenance of captured/restored values, ordering capture-before-overwrite, who-may-write the variable",
+         "Decides the capture/restore discipline that 'Cancel/Reset puts back the value before the first mock' rests on, for every history of Set/Apply/Cancel because it holds on every CFG path. Does not decide visibility to concurrent readers or symbol-address correctness for unexported variables (C10).",
+         "Trusted: go/ssa, dominator-based guards; reflect.Value.Set is the only way VarMock implementations write the variable (asserted by rule R3 over all their methods)."),
 }
 NA = {}
 PENDING_REASON = "check not built yet in this revision (planned per DESIGN.md section 3); not claimed until it runs"
